@@ -2,9 +2,9 @@
 package main
 
 import (
-	"os"
 	"context"
 	"fmt"
+	"os"
 	"regexp"
 	"sort"
 	"strings"
@@ -390,7 +390,7 @@ func body(c *explore.Chooser) *explore.Case {
 func main() {
 	explore.Main(&explore.Config{
 		Property: "C12", Level: "exploration",
-		Rule: "expressions of the property's fragment (selectors x 4 matcher sets, label-preserving functions, aggregations by/without, arithmetic/comparison/set operators x 9 matching modifiers, numbers and vector(n) operands): all with <=1 operator node and every unary wrapper around every <=1-operator expression (thorough: all with <=2 operator nodes); for every 'dead code in query' problem of the real promql/impossible check, every binary operation the flagged position can belong to is evaluated by the vendored engine on EVERY database of <=2 series in which each series carries all labels a,b,c (values x|y) with constant values 0|1|2; the flagged operand 'contributes nothing' iff the operation's result equals what it would be with that operand replaced by the empty vector (nothing; for `or` and the right side of `unless`: the other operand); the report is a false positive iff on some database every candidate operation is shown to differ from that",
+		Rule:        "expressions of the property's fragment (selectors x 4 matcher sets, label-preserving functions, aggregations by/without, arithmetic/comparison/set operators x 9 matching modifiers, numbers and vector(n) operands): all with <=1 operator node, every unary wrapper around every <=1-operator expression, and the 3-operator shapes chain (U2(U1(sel)) op mod R, both orientations) and reinclude (sel op mod1 (agg(bar) * mod2 sel3), label lists with repeated names) (thorough: also all with <=2 operator nodes and all with <=3 operator nodes of a small alphabet); for every 'dead code in query' problem of the real promql/impossible check, every binary operation the flagged position can belong to is evaluated by the vendored engine on EVERY database of <=2 series in which each series carries all labels a,b,c (values x|y) with constant values 0|1|2; a candidate is an enclosing binary operation B plus the flagged source X (the operand holding the position, or an `or` alternative of it holding the position); (B,X) is refuted on a database where B returns something and differs (labels and values) from B with X replaced by a selector matching nothing; the report is a false positive iff every candidate is refuted on some database",
 		Assumptions: []string{"a dead Source carries a position but not the operation that killed it, so all enclosing binary operations are candidates and a report only counts as false when all are refuted (never alarms on a correct report)", "engine over our in-memory storage is the truth"},
 		Spaces:      []*explore.Space{{Name: "expressions", Body: body, Setup: setup, Bound: func(string) int { return -1 }}},
 		BudgetS: func(t string) int {
